@@ -43,7 +43,8 @@ CheckLoad(e) ==
 
 \* ---------------------------------------------------------------- C16
 CheckListing(e) ==
-  (e.produced = 1 /\ Len(e.got.code) > 0) =>
+  /\ (e.produced = 1 /\ Len(e.got.code) = 0) => (e.panic = "" /\ e.lines = << >>)      \* an empty warrior has an empty listing
+  /\ (e.produced = 1 /\ Len(e.got.code) > 0) =>
      /\ e.panic = ""
      /\ Len(e.lines) = Len(e.got.code) + 1
      /\ LET r == ReadListing(e.lines, e.dialect = 88, e.M) IN
